@@ -260,4 +260,24 @@ def run(tier, seed):
 
 
 def replay(path, seed):
-    return core.replay_generic(path)
+    """bin/check C17 --replay <file>: re-execute one recorded case in the build it was recorded in (the label names the
+    build: ed255-<projc|extnd|basic>[-grp|-mul], w8p8-<...>)."""
+    import json
+    r = json.load(open(path))
+    f = r.get("label", "").split("-")
+    kind = f[1] if len(f) > 1 and f[1] in ED_METHD else "projc"
+    cfg, bdir = build(kind, tiny=(f[0] == "w8p8"))
+    if r.get("case") is None:
+        print("replay file has no executable case (abnormal execution): %s" % r.get("event"))
+        core.report_violation("C17", path)
+        return 1
+    wd = core.workdir("C17", "replay")
+    conf = core.Conformance("C17", core.Evidence("C17", "quick", 0), wd)
+    conf.run("%s-%s-replay" % (f[0] if f[0] in ("ed255", "w8p8") else "ed255", kind), cfg, "ed", DRV,
+             r["case"].split("\n"), SPEC, shards=1, bdir=bdir)
+    for key in conf.known_hits:
+        print("KNOWN-FINDING: property=C17 %s" % key)
+    if conf.violations:
+        core.report_violation("C17", path)
+        return 1
+    return 2 if conf.infra else 0
